@@ -18,7 +18,7 @@
 From Coq Require Import List ZArith Bool.
 From Coq.Init Require Import Byte.
 From Sif Require Import Bytes Store Format Image Machine SelectFacts Inv InvSet InvAdd Integrity Sign
-     IntegFacts C04Facts C05Facts SignFrame SignFacts IntegExamples.
+     IntegFacts C04Facts C05Facts SignFrame SignFacts ViewFacts IntegExamples.
 Import ListNotations.
 Local Open Scope Z_scope.
 
@@ -147,6 +147,29 @@ Theorem C06_verdict_depends_on_the_protected_view_only :
   verify_group_sig hash open_dsse open_pgp parse_md m' st' g ods sub sig kind.
 Proof. exact verify_group_sig_ext. Qed.
 
+(* ... in particular in another image: objects relocated, the whole group's IDs
+   shifted (a different minimum ID), the group renamed, unprotected descriptor
+   and header fields changed - as long as each covered object presents the
+   same descriptor stream and bytes and keeps its position relative to the
+   group's minimum ID, an accepted signature is accepted there too, for the
+   corresponding objects, with the same signers *)
+Theorem C06_same_protected_view_same_verdict :
+  forall hash open_dsse open_pgp parse_md,
+  forall m st g ods sig m' st' g' ods' sig' sub kind minid minid',
+  header_stream (m_hdr m) = header_stream (m_hdr m') ->
+  group_min_id m g = Some minid -> group_min_id m' g' = Some minid' ->
+  d_id sig = d_id sig' -> sig_meta sig = sig_meta sig' -> obj_bytes sig st = obj_bytes sig' st' ->
+  Forall2 (view_related st st' minid minid') ods ods' ->
+  vr_err (verify_group_sig hash open_dsse open_pgp parse_md m st g ods sub sig kind) = None ->
+  vr_err (verify_group_sig hash open_dsse open_pgp parse_md m' st' g' ods' sub sig' kind) = None /\
+  vr_verified (verify_group_sig hash open_dsse open_pgp parse_md m' st' g' ods' sub sig' kind) =
+    map (fun p => d_id (fst p)) ods' /\
+  vr_keys (verify_group_sig hash open_dsse open_pgp parse_md m' st' g' ods' sub sig' kind) =
+    vr_keys (verify_group_sig hash open_dsse open_pgp parse_md m st g ods sub sig kind) /\
+  vr_entity (verify_group_sig hash open_dsse open_pgp parse_md m' st' g' ods' sub sig' kind) =
+    vr_entity (verify_group_sig hash open_dsse open_pgp parse_md m st g ods sub sig kind).
+Proof. exact verdict_of_equal_views. Qed.
+
 (* REFUTED in one respect (known finding F13): when two signatures cover
    different object subsets of one group, verifying an object of the first
    subset fails once the second signature exists, because every signature
@@ -168,4 +191,5 @@ Print Assumptions C06_new_signature_accepted.
 Print Assumptions C06_whole_group_signer.
 Print Assumptions C06_add_elsewhere_keeps_every_verdict.
 Print Assumptions C06_verdict_depends_on_the_protected_view_only.
+Print Assumptions C06_same_protected_view_same_verdict.
 Print Assumptions C06_second_subset_signature_refuted.
